@@ -208,11 +208,26 @@ int process_tarball(sqfs_dir_iterator_t *it, sqfs_writer_t *sqfs)
 			if (link != NULL &&
 			    ((ent->flags & SQFS_DIR_ENTRY_FLAG_HARD_LINK) ||
 			     !no_symlink_retarget)) {
-				if (canonicalize_name(link) == 0 &&
-				    !strncmp(link, root_becomes, rootlen) &&
-				    link[rootlen] == '/') {
-					memmove(link, link + rootlen,
-						strlen(link + rootlen) + 1);
+				/* test a copy: a target that is not below the
+				   new root must be stored untouched */
+				char *temp = strdup(link);
+
+				if (temp == NULL) {
+					perror(ent->name);
+					free(ent);
+					free(link);
+					return -1;
+				}
+
+				if (canonicalize_name(temp) == 0 &&
+				    !strncmp(temp, root_becomes, rootlen) &&
+				    temp[rootlen] == '/') {
+					memmove(temp, temp + rootlen,
+						strlen(temp + rootlen) + 1);
+					free(link);
+					link = temp;
+				} else {
+					free(temp);
 				}
 			}
 		} else if (ent->name[0] == '\0') {
